@@ -7,7 +7,7 @@
    IPM files: every cut of real IpmWriter files is read with the real IpmReader and judged by Trace_Ipm (records before
    the cut decode to exactly their dictionaries; then stop or the library error).
 """
-from . import core, drv, vbsc
+from . import core, drv, vbsc  # noqa
 from .drv import P
 
 
@@ -28,17 +28,30 @@ def gen_file(r, blocked, nrecs, cap):
 def _drive(args):
     seed, tid, blocked, nrecs, cap, lo, hi = args
     r = drv.rng(seed, 'c09', tid)
-    if nrecs < 0:
+    if nrecs == -99999:
+        recs = [vbsc.rec_content(r, n_, 'code', i * 131) for i, n_ in enumerate([300 + (i * 37) % 200 for i in range(60)])]
+    elif nrecs < 0:
         # single record whose end falls at payload offsets 1009..1016 of the first block (length -nrecs)
         recs = [vbsc.rec_content(r, -nrecs, 'code', 0)]
     else:
         recs = gen_file(r, blocked, nrecs, cap)
     _, data = drv.vbs_write_events(recs, blocked)
+    lo = min(lo, len(data))
     hi = min(hi, len(data))
     events = [drv.ev('given', 0, '', data)]
+    onfile = (nrecs >= 0 and tid % 3 == 2) or nrecs == -99999        # the cut file is a real file on disk
     for k in range(lo, hi + 1):
         events.append(drv.ev('cut', k))
-        events += drv.read_events(data[:k], blocked)[0]
+        if onfile:
+            import os
+            path = os.path.join(core.VERIF, '.work', 'c09-%d-%d.bin' % (os.getpid(), tid))
+            with open(path, 'wb') as fh:
+                fh.write(data[:k])
+            with open(path, 'rb') as fh:
+                events += drv.read_events(data[:k], blocked, fileobj=fh)[0]
+            os.unlink(path)
+        else:
+            events += drv.read_events(data[:k], blocked)[0]
     return {'tid': tid * 1000 + lo // 700, 'blk': blocked, 'strict': False, 'loc': False, 'events': events,
             '_desc': '%s file of %d bytes, records %s, every cut %d..%d' % ('blocked' if blocked else 'unblocked', len(data),
                                                                         [len(x) for x in recs], lo, hi)}
@@ -94,6 +107,9 @@ def run(rep, wd, tier, seed):
     rep.assumptions += ['TLC 1.8 evaluates the TLA+ text correctly', 'file objects are io.BytesIO']
     vbsc.model_check(rep, wd, tier, invariants=('TruncInv', 'ReadBackInv'), props=())
     nfiles = 36 if tier == 'thorough' else 6
+    # one long unblocked file (several I/O buffers long) read from disk: complete, and cut at offsets around the
+    # buffer sizes 4096 / 8192
+    bigjobs = []
     jobs = []
     for i in range(nfiles):
         blocked = bool(i & 1)
@@ -108,6 +124,9 @@ def run(rep, wd, tier, seed):
         for blocked in ((True, False) if tier == 'thorough' else (True,)):
             for lo in range(0, 2 * (P + 2), 700):
                 jobs.append((seed, 1000 + n * 2 + int(blocked), blocked, -n, 0, lo, lo + 699))
+    for lo in (4086, 8182, 16374, 24566):
+        jobs.append((seed, 5000 + lo, False, -99999, 0, lo, lo + 24))
+    jobs.append((seed, 5999, False, -99999, 0, 10 ** 6, 10 ** 6))          # the complete file
     traces = [t for t in vbsc.parallel(_drive, jobs) if len(t['events']) > 1]
     cuts = sum(1 for t in traces for e in t['events'] if e['op'] == 'cut')
     rep.extra['cuts_read_with_real_reader'] = cuts
